@@ -11,7 +11,7 @@ what WallGo.PotentialTools.integrals documents ("principal part").
 Nothing in here is taken from WallGo.  Three independent evaluations are provided:
 
 * ``J`` / ``dJ``       mpmath tanh-sinh quadrature of the *complex* integrand at ``dps``
-                       digits, integration interval split at every logarithmic
+                       (default 20) digits, integration interval split at every logarithmic
                        singularity  y_k = sqrt(-x - (k pi)^2)  (k even: bosons, k odd:
                        fermions; at those points |1 -/+ e^{-i theta}| = 0 and the
                        imaginary part jumps by pi) and at y = sqrt(-x).
@@ -42,7 +42,7 @@ JF0 = -7.0 * math.pi ** 4 / 360.0
 DJB0 = math.pi ** 2 / 12.0          # J_b'(0) = zeta(2)/2
 DJF0 = math.pi ** 2 / 24.0          # J_f'(0) = eta(2)/2
 
-DPS = 30
+DPS = 20          # identical float64 results to dps=30 on [-20,0] (checked), 44% cheaper
 
 
 def thresholds(kind: str, xmin: float = -4000.0) -> list[float]:
@@ -90,9 +90,15 @@ def _logterm(kind: str, x, y):
     return -mp.log(1 + mp.exp(-e))
 
 
+def _dps_for(x, dps):
+    """mp.quad controls the absolute error at the working precision; for x > 0 the value
+    decays like exp(-sqrt x), so carry that many extra digits."""
+    return dps + (int(math.sqrt(x) / 2.3) + 10 if x > 0 else 0)
+
+
 def J(kind: str, x: float, dps: int = DPS) -> tuple[float, float]:
     """(Re, Im) of J_b (kind 'b') or J_f (kind 'f') at real x."""
-    with mp.workdps(dps):
+    with mp.workdps(_dps_for(x, dps)):
         x = mp.mpf(x)
         if x >= 0:
             f = lambda y: y * y * _logterm(kind, x, y).real  # noqa: E731
@@ -112,7 +118,7 @@ def J(kind: str, x: float, dps: int = DPS) -> tuple[float, float]:
 
 def dJ(kind: str, x: float, dps: int = DPS) -> tuple[float, float]:
     """(Re, Im) of dJ/dx at real x (see module docstring)."""
-    with mp.workdps(dps):
+    with mp.workdps(_dps_for(x, dps)):
         x = mp.mpf(x)
         g = lambda y: -_logterm(kind, x, y) / 2  # noqa: E731
         if x >= 0:
@@ -212,10 +218,10 @@ def selfcheck() -> dict:
             for part in (0, 1):
                 fd = (J(kind, x + h)[part] - J(kind, x - h)[part]) / (2 * h)
                 upd(abs(dJ(kind, x)[part] - fd), 1e-5, (kind, "dJ~FD", x, part))
-        # 50-digit evaluation agrees with the 30-digit one
+        # 50-digit evaluation agrees with the default-precision one
         for x in (-7.7, -33.3):
             a, b = J(kind, x), J(kind, x, dps=50)
-            upd(max(abs(a[0] - b[0]), abs(a[1] - b[1])), 1e-13, (kind, "dps30~dps50", x))
+            upd(max(abs(a[0] - b[0]), abs(a[1] - b[1])), 1e-13, (kind, "dps20~dps50", x))
         # continuity of the real part across 0: |J(-d) - J(0)| <= 2 d |dJ(0)|
         upd(abs(J(kind, -1e-9)[0] - v0), 2e-9, (kind, "J(-0)"))
     entries.sort(key=lambda e: -e[0])
